@@ -125,8 +125,31 @@ def lr1_not_lalr(rng, idx):
     splitting is needed), with random decoration: the construction algorithms
     only differ on such grammars"""
     a, b, c, d, e = TS[0], TS[1], TS[2], TS[3], TS[4]
-    fam = rng.randrange(6)
+    fam = rng.randrange(8)
     nts = ["S", "A", "B"]
+    if fam >= 6:
+        # two inconsistencies chained along one lane: the split states (A/B, follows swapped between the
+        # contexts) are reached through a lane state that is itself inconsistent (C/D reduce the same body
+        # with different follows), optionally with a shorter path from the start state to the split item
+        n = rng.choice([1, 2])
+        lane = [e] * n
+        f1, f2 = (c, d)
+        prods = [("S", [a, "E", f1]), ("S", [a, "F", f2]), ("S", [b, "E", f2]), ("S", [b, "F", f1]),
+                 ("E", lane + ["A"]), ("F", lane + ["B"]), ("A", [TS[5]]), ("B", [TS[5]])]
+        nts = ["S", "E", "F", "A", "B"]
+        if rng.random() < 0.7:     # the inconsistent intermediate lane state
+            u1, u2 = (a, b) if rng.random() < 0.5 else (c, d)
+            prods += [("S", [a, "C", u1]), ("S", [a, "D", u2]), ("C", [e]), ("D", [e])]
+            nts += ["C", "D"]
+            if rng.random() < 0.7:
+                prods += [("S", [b, "C", u1]), ("S", [b, "D", u2])]
+        if rng.random() < 0.6:     # a shorter path to the split item
+            prods += [("S", ["A", f1]), ("S", ["B", f2])]
+        if rng.random() < 0.3:
+            rng.shuffle(prods)
+        used = [t for t in TS if any(t in r_ for _, r_ in prods)]
+        return {"id": "x%05d" % idx, "ts": used, "nts": nts, "starts": ["S"],
+                "prods": [{"lhs": l, "rhs": list(r_)} for l, r_ in prods]}
     if fam >= 4:
         # k contexts x m items over a common body, follow tokens arranged as a Latin square:
         # in each context the items have distinct follows (LR(1)), across contexts every item has
